@@ -151,6 +151,102 @@ async fn one_config(a: Args, idx: usize, m: refimpl::ss::Method, transport: Tran
     rep
 }
 
+/// One salt cache per server: in mode tcp_and_quic a handshake accepted on one listener, presented again on the other
+/// one, must be refused just the same. A reference client's request goes to the TCP listener (accepted: the echo target
+/// is dialled), then the very same bytes go into a QUIC stream of the same server.
+async fn cross_listener(a: Args, idx: usize, m: refimpl::ss::Method) -> Report {
+    use crate::peer::{ClientOpts, RefClient};
+    let mut rep = Report::new();
+    let mut rng = Rng::derive(a.seed, 0xC10F, idx as u64);
+    let cfg = Cfg::random(&mut rng, Proto::Ss(m), 0);
+    let dir = work_dir(&a, &format!("c10-x{idx}"));
+    let mut d = Deploy::new(cfg.clone(), Transport::Quic, false, 2, &dir);
+    d.server_mode = Some("tcp_and_quic".into());
+    let cfgname = format!("{}|tcp_and_quic", m.name());
+    let (dd, tag) = (d.clone(), format!("c10-x{idx}"));
+    let started = tokio::task::spawn_blocking(move || {
+        let mut server = start_node("server", &dd.server_json(), &dd.dir, &tag, dd.workers, &dd.log_level, None, None).map_err(|e| e.to_string())?;
+        wait_ready(&mut server, Some(dd.server_port), Some(dd.server_port), Duration::from_secs(15))?;
+        Ok::<Node, String>(server)
+    })
+    .await
+    .unwrap();
+    let server = match started {
+        Ok(s) => s,
+        Err(e) => {
+            rep.inconclusive(format!("server does not start: {}", e.lines().next().unwrap_or("")));
+            return rep;
+        }
+    };
+    // a target that counts connections
+    let l = tokio::net::TcpListener::bind("127.0.0.1:0").await.unwrap();
+    let tport = l.local_addr().unwrap().port();
+    let dials = Arc::new(std::sync::atomic::AtomicU64::new(0));
+    let d2 = dials.clone();
+    let tgt = tokio::spawn(async move {
+        while let Ok((mut s, _)) = l.accept().await {
+            d2.fetch_add(1, std::sync::atomic::Ordering::SeqCst);
+            tokio::spawn(async move {
+                let mut b = [0u8; 1024];
+                while let Ok(n) = s.read(&mut b).await {
+                    if n == 0 || s.write_all(&b[..n]).await.is_err() {
+                        break;
+                    }
+                }
+            });
+        }
+    });
+    for (first, second) in [("tcp", "quic"), ("quic", "tcp")] {
+        let now = std::time::SystemTime::now().duration_since(std::time::UNIX_EPOCH).unwrap().as_secs();
+        let mut c = RefClient::new(&cfg, &refimpl::addr::Addr::V4([127, 0, 0, 1], tport), &mut rng, now, ClientOpts::default());
+        let w = c.write(b"a taped request", &mut rng);
+        let before = dials.load(std::sync::atomic::Ordering::SeqCst);
+        let mut counts = Vec::new();
+        for via in [first, second] {
+            if via == "tcp" {
+                play(d.server_port, &w, Duration::from_millis(400)).await;
+            } else if let Some((_ep, _conn, mut tx, mut rx)) = quic_open(d.server_port).await {
+                let _ = tx.write_all(&w).await;
+                let mut b = [0u8; 1024];
+                let _ = tokio::time::timeout(Duration::from_millis(400), rx.read(&mut b)).await;
+            } else {
+                rep.inconclusive("quic connection to the server failed");
+            }
+            tokio::time::sleep(Duration::from_millis(150)).await;
+            counts.push(dials.load(std::sync::atomic::Ordering::SeqCst) - before);
+        }
+        rep.evaluations += 2;
+        rep.mon("cross_listener_replays", 1);
+        rep.case(&(idx, first, second), counts.first() == Some(&1));
+        match counts[..] {
+            [1, 1] => rep.mon("cross_listener_replays_refused", 1),
+            [1, n] if n > 1 => rep.violation(format!("C10|nodes|{}|handshake-accepted-over-{}-accepted-again-over-{}", cfgname, first, second), format!("{cfgname}: a handshake accepted on the {first} listener was accepted again when presented on the {second} listener of the same server"), json!({"seed": a.seed, "deploy": d.describe(), "dials": counts})),
+            _ => rep.inconclusive(format!("the original handshake over {first} was not served")),
+        }
+    }
+    tgt.abort();
+    drop(server);
+    let _ = std::fs::remove_dir_all(&dir);
+    rep
+}
+
+async fn quic_open(port: u16) -> Option<(quinn::Endpoint, quinn::Connection, quinn::SendStream, quinn::RecvStream)> {
+    use tokio_rustls::rustls::pki_types::pem::PemObject;
+    use tokio_rustls::rustls::pki_types::CertificateDer;
+    let _ = tokio_rustls::rustls::crypto::aws_lc_rs::default_provider().install_default();
+    let cert = CertificateDer::from_pem_file(verif_root().join("certs").join("ca.crt")).ok()?;
+    let mut roots = tokio_rustls::rustls::RootCertStore::empty();
+    roots.add(cert).ok()?;
+    let mut cfg = tokio_rustls::rustls::ClientConfig::builder().with_root_certificates(roots).with_no_client_auth();
+    cfg.alpn_protocols = vec![b"http/1.1".to_vec()];
+    let mut ep = quinn::Endpoint::client("0.0.0.0:0".parse().unwrap()).ok()?;
+    let qc = quinn::crypto::rustls::QuicClientConfig::try_from(cfg).ok()?;
+    ep.set_default_client_config(quinn::ClientConfig::new(Arc::new(qc)));
+    let conn = tokio::time::timeout(Duration::from_secs(4), ep.connect(format!("127.0.0.1:{port}").parse().unwrap(), "localhost").ok()?).await.ok()?.ok()?;
+    let (tx, rx) = conn.open_bi().await.ok()?;
+    Some((ep, conn, tx, rx))
+}
+
 pub async fn run(a: &Args) -> Report {
     use refimpl::ss::Method as M;
     let all = [M::B3Aes128Gcm, M::B3Aes256Gcm, M::B3ChaCha20Poly1305, M::B3ChaCha8Poly1305];
@@ -174,6 +270,13 @@ pub async fn run(a: &Args) -> Report {
             let _g = sem.acquire_owned().await.unwrap();
             one_config(a, idx, p, t, u).await
         }));
+    }
+    for (k, x) in all.iter().enumerate() {
+        if a.thorough || (k + a.seed as usize) % 2 == 1 {
+            let a = a.clone();
+            let x = *x;
+            hs.push(tokio::spawn(async move { cross_listener(a, k, x).await }));
+        }
     }
     let mut rep = Report::new();
     for h in hs {
